@@ -624,6 +624,15 @@ func main() {
 			}
 		}
 	}
+	for k := uint(0); k < 256; k++ { // limb-structured r / s around n and 2^256
+		p2 := new(big.Int).Lsh(big.NewInt(1), k)
+		for _, v := range []*big.Int{new(big.Int).Sub(ref.N, p2), new(big.Int).Sub(new(big.Int).Sub(ref.R256, big.NewInt(1)), p2), new(big.Int).Add(ref.N, p2)} {
+			if v.Sign() >= 0 && v.BitLen() <= 256 {
+				cs.add(append(ref.B32(v), ref.B32(big.NewInt(1))...))
+				cs.add(append(ref.B32(big.NewInt(1)), ref.B32(v)...))
+			}
+		}
+	}
 	batch("compact", "ParseCompact*", runCompact, cs.out, func(b []byte) string {
 		_, _, ok := ref.CompactParse(b)
 		_, _, _, ok2 := ref.CompactRecoverableParse(b)
